@@ -201,7 +201,7 @@ func checkC01(c ProtoCase, st *Stats) error {
 	return err
 }
 
-var propC01 = Register(Prop[ProtoCase]{ID: "C01", Name: "C01", Check: checkC01})
+var propC01 = Register(Prop[ProtoCase]{ID: "C01", Name: "C01", Pending: true, Check: checkC01})
 
 func TestC01Rapid(t *testing.T) {
 	p := propC01
